@@ -329,10 +329,13 @@ class GoVerifier(GoExec, SpecMixin, CallsMixin, StmtsMixin, LibMixin):
             m = re.match(r'(\w+)\s*:\s*(.*)$', cl.text, re.S)
             if m and m.group(1) == 'return':
                 try:
+                    env.strict_names = True
                     self.run_hint(state, env, m.group(2), cl)
                 except Unsupported as ex:
                     if 'unknown name' not in str(ex):
                         raise               # (a hint about a local that does not exist on this return path is skipped)
+                finally:
+                    env.strict_names = False
         for i, cl in enumerate(c.get('ensures')):
             self.oblige(state, 'post#%d' % (i + 1), self.sev_bool(env, cl.expr), src=cl.line)
         pcs = c.get('panics_if')
